@@ -2,8 +2,8 @@ import Irismod.Props.C02
 open Irismod Irismod.Sdk Irismod.Coinswap Irismod.Spec.C02 Irismod.Props.C02
 #print axioms swap_single_exact
 #print axioms swap_double_ledger
-#print axioms double_hop_settles_partial
-#print axioms double_hop_does_not_net
+#print axioms double_hop_settles
+#print axioms double_hop_nets
 #print axioms witness_outcome
 #print axioms add_liquidity_exact
 #print axioms add_unilateral_exact
@@ -14,8 +14,12 @@ open Irismod Irismod.Sdk Irismod.Coinswap Irismod.Spec.C02 Irismod.Props.C02
 #print axioms Irismod.Proofs.Coinswap.inTime_of_not_expired
 
 -- non-vacuity: on the witness state a single-hop swap to another recipient, a routed swap to oneself and
--- a routed swap to another recipient are all accepted; the executable ledger of the property holds for the
--- first two and fails for the third exactly in the class F-swap-1
+-- a routed swap to another recipient are all accepted and the executable ledger of the property holds for all
+-- three; the ledger shape of the former defect F-swap-1 is rejected by the monitor as an unclassified failure
 def single : Op := .swap "A0" "A1" "btc" 1000 "stake" 1 false 100
 def routedSelf : Op := .swap "A0" "A0" "btc" 1000 "eth" 1 false 100
-#eval s!"nonvacuous {(step witnessState single).isOk && (stepFails witnessState single true (apply witnessState single)).isEmpty && (step witnessState routedSelf).isOk && (stepFails witnessState routedSelf true (apply witnessState routedSelf)).isEmpty && (step witnessState witnessOp).isOk && (stepFails witnessState witnessOp true (apply witnessState witnessOp) == [("double-hop-netting", "F-swap-1")])}"
+def oldDefect : State :=
+  { witnessState with bank := { witnessState.bank with bal :=
+      [(("A0", "btc"), 4000), (("A0", "stake"), 4004), (("A1", "stake"), 996), (("A1", "eth"), 992),
+       (("P1", "btc"), 1001000), (("P1", "stake"), 999004), (("P2", "eth"), 999008), (("P2", "stake"), 1000996)] } }
+#eval s!"nonvacuous {(step witnessState single).isOk && (stepFails witnessState single true (apply witnessState single)).isEmpty && (step witnessState routedSelf).isOk && (stepFails witnessState routedSelf true (apply witnessState routedSelf)).isEmpty && (step witnessState witnessOp).isOk && (stepFails witnessState witnessOp true (apply witnessState witnessOp)).isEmpty && (stepFails witnessState witnessOp true oldDefect == [("swap-ledger", "")])}"
